@@ -196,10 +196,32 @@ type c16strat struct {
 func (c16strat) Coarse() bool { return true }
 func (s *c16strat) Choose(sc *vsched.Sched, opts []vsched.Transition, nThread, cur int) int {
 	if nThread > 0 {
+		b := 0
 		if cur >= 0 {
-			return cur
+			b = cur
 		}
-		return 0
+		if sc.SelectBranch {
+			// Go picks at random among the ready cases of a select (e.g. the pipeline's decoder: next queued future
+			// vs. shutdown): every ready case of the select the scheduled thread sits in is explored
+			idx := []int{b}
+			for j := 0; j < nThread; j++ {
+				if j != b && opts[j].T == opts[b].T {
+					idx = append(idx, j)
+				}
+			}
+			if len(idx) > 1 {
+				labels := make([]string, len(idx))
+				costs := make([]int, len(idx))
+				for i, j := range idx {
+					labels[i] = "select " + opts[j].String()
+					if i > 0 {
+						costs[i] = 1
+					}
+				}
+				return idx[s.rec.choose(labels, costs)]
+			}
+		}
+		return b
 	}
 	if len(opts) == 0 {
 		return -1
@@ -212,6 +234,9 @@ func (s *c16strat) Choose(sc *vsched.Sched, opts []vsched.Transition, nThread, c
 	}
 	return s.rec.choose(labels, costs)
 }
+
+// c16SelectBranch: ready-case choices of selects are explored too (pipeline-close cases)
+var c16SelectBranch bool
 
 // c16TimeFmt selects the msgpack time format of the two transports of the next world (see runC16).
 var c16TimeFmt int
@@ -247,6 +272,7 @@ func runC16(prefix []int, maxInFlight int, timeout time.Duration, fault *connFau
 	w.net.fault = fault
 	st := &c16strat{rec: &Recorder{prefix: prefix}}
 	s := vsched.New(st)
+	s.SelectBranch = c16SelectBranch
 	vtime.Reset()
 	panicMsg := ""
 	s.OnPanic = func(t *vsched.Thread, v any, stack string) {
@@ -746,6 +772,8 @@ func runC16case(c c16case) (string, *Recorder) {
 		}
 		return fail, rec
 	case "pipeline-close":
+		c16SelectBranch = true
+		defer func() { c16SelectBranch = false }()
 		// A pipeline is closed while responses are still outstanding or unread (what raft does when it leaves
 		// pipeline mode); later plain RPCs and a new pipeline from the same transport must get their own responses.
 		var fail string
